@@ -323,6 +323,51 @@ def _dominated_by_less_than(f, site, vid, lenvars):
     return guards.reach_path(f, f.entry, site.id, lt_edges) is None
 
 
+def r08_4(prog, rule):
+    """A failing member verdict must reach the walker's return: assuming a member checker returned -1, no return of 0
+    (and no return of a value that is no longer that verdict) is reachable."""
+    from .. import assume
+    from . import common
+    for k in sorted(common.constraint_functions(prog)):
+        f = prog.funcs[k]
+        for b, i, e in f.calls():
+            is_checker = e.get("slot") == "general_constraints" or (e.get("fp_var") and "asn_constr_check_f" in e.get("fp_type", "")) \
+                or (e.get("callee") and prog.func(e["callee"]) is not None and common.has_constr_signature(prog.func(e["callee"])))
+            if not is_checker:
+                continue
+            key = "verdict:%s" % (e.get("callee") or guards.canon(e["callee_tree"]))
+            if e.get("use") == "returned":
+                rule.ok(f, key, "verdict returned directly", e["line"], nontrivial=False)
+                continue
+            if e.get("use") in ("discarded", "voidcast"):
+                rule.bad(f, key, "the checker's verdict is discarded", e["line"])
+                continue
+            subj = assume.subject_of_call(e, None)
+            if subj is None:
+                rule.bad(f, key, "the checker's verdict is not held anywhere (%s)" % e.get("use"), e["line"])
+                continue
+
+            def classify(rb, ri, re, env=None):
+                ex = re.get("expr")
+                if ex and "const" in ex:
+                    return "fail" if ex["const"] != 0 else "success"
+                t = strip_casts(ex["tree"]) if ex else None
+                if is_var(t):
+                    v = (env or {}).get((t[1], None))
+                    if isinstance(v, int):
+                        return "fail" if v != 0 else "success"
+                return "unknown:value"
+            hits = assume.explore(f, b, i, subj, -1, classify, origin_callid=e.get("id"), from_entry=False)
+            bad = next((h for h in hits if h[0] not in ("fail", "abort")), None)
+            if bad is None:
+                rule.ok(f, key, "assuming the member check failed, only failing returns are reachable", e["line"])
+            else:
+                kind, rb, ri, re, path, lost = bad
+                rule.bad(f, key, "assuming this member check returned -1, control reaches the return at line %s (%s)%s: an invalid member "
+                                 "does not make the whole value invalid" % (re.get("line"), kind, " after the verdict was overwritten" if lost else ""),
+                         e["line"], witness={"path": guards.path_lines(f, list(path))})
+
+
 def run(ctx):
     prog = ctx.prog("S")
     tab = load_tables("c08")
@@ -332,7 +377,9 @@ def run(ctx):
     r08_1(prog, r1, tab["walkers"])
     r08_2(prog, r2)
     r08_3(prog, r3)
-    return [r1, r2, r3]
+    r4 = Rule("R08.4", "a failing verdict of a member or delegated checker always reaches the return value of the walker", floor=5)
+    r08_4(prog, r4)
+    return [r1, r2, r3, r4]
 
 
 def thorough(ctx):
